@@ -7,32 +7,14 @@
 #define STEPS 2
 #endif
 
-// channels are enumerated concretely (a symbolic index into the array of 1.2 KiB MIDIchannel
-// structs turns every later access into a 16-way case split); the values cover the guard's
-// edge cases: first, percussion, last, == channel count, and far out of range.
-static unsigned char pick_channel(void)
-{
-#ifdef CHAN_SYMBOLIC
-    return nondet_uchar();
-#endif
-    unsigned s = nondet_uchar();
-    switch(s & 7)
-    {
-    case 0: return 0;
-    case 1: return 9;
-    case 2: return 15;
-    case 3: return 16;
-    case 4: return 17;
-    case 5: return 255;
-    case 6: return 25;
-    default: return 1;
-    }
-}
-
-static void step(OPN2_MIDIPlayer *dev)
+// Channels are enumerated concretely and the API call is made INSIDE each branch: a symbolic
+// index (even an if-then-else of constants merged after a switch) into the array of 1.2 KiB
+// MIDIchannel structs turns every later access into a 16-way case split over the whole array.
+// The values cover the guard's edge cases: first, percussion, last, == channel count, out of range.
+// optnone keeps one call site per concrete argument (see step() below)
+__attribute__((optnone, noinline)) static void step_ch(OPN2_MIDIPlayer *dev, unsigned char ch)
 {
     unsigned sel = nondet_uchar();
-    unsigned char ch = pick_channel();
     unsigned char a = nondet_uchar(), b = nondet_uchar();
     VASSUME(sel < 13);
 #ifdef SEL_LO
@@ -41,12 +23,18 @@ static void step(OPN2_MIDIPlayer *dev)
 #endif
     switch(sel)
     {
-    case 0: opn2_rt_noteOn(dev, ch, a, b); break;
+    case 0:
+        // keys are enumerated so that a percussion channel selects a pinned (single-voice) entry
+        if(a & 1) opn2_rt_noteOn(dev, ch, 60, b); else opn2_rt_noteOn(dev, ch, 35, b);
+        break;
     case 1: opn2_rt_noteOff(dev, ch, a); break;
     case 2: opn2_rt_noteAfterTouch(dev, ch, a, b); break;
     case 3: opn2_rt_channelAfterTouch(dev, ch, a); break;
     case 4: opn2_rt_controllerChange(dev, ch, a, b); break;
-    case 5: opn2_rt_patchChange(dev, ch, a); break;
+    case 5:
+        // programs are enumerated likewise (every program value is covered by C03.rt.guard.patchChange)
+        if(a & 1) opn2_rt_patchChange(dev, ch, 0); else opn2_rt_patchChange(dev, ch, 5);
+        break;
     case 6: opn2_rt_pitchBend(dev, ch, (OPN2_UInt16)(a | (b << 8))); break;
     case 7: opn2_rt_pitchBendML(dev, ch, a, b); break;
     case 8: opn2_rt_bankChangeLSB(dev, ch, a); break;
@@ -57,13 +45,33 @@ static void step(OPN2_MIDIPlayer *dev)
     }
 }
 
+// optnone: LLVM would otherwise sink the four calls into one call with a phi of the constants
+__attribute__((optnone, noinline)) static void step(OPN2_MIDIPlayer *dev)
+{
+#ifdef CHAN_SYMBOLIC
+    step_ch(dev, nondet_uchar());
+#else
+    switch(nondet_uchar() & 3)
+    {
+    case 0: step_ch(dev, 0); break;
+    case 1: step_ch(dev, 9); break;
+    case 2: step_ch(dev, 16); break;   // == channel count: must wrap to 0
+    default: step_ch(dev, 255); break; // wraps to 15
+    }
+#endif
+}
+
 extern "C" void harness_rt(void)
 {
     OPN2_MIDIPlayer *dev = opn2_init(44100);
     VASSUME(dev != NULL);
     OPNMIDIplay *p = player_of(dev);
-    forge_bank(p, 0);                               // melodic bank 0: 128 arbitrary instruments
-    forge_bank(p, OPN2::PercussionTag);             // percussion bank 0
+#ifndef NO_BANKS
+    OPN2::Bank *mel = forge_bank(p, 0);                      // melodic bank 0
+    OPN2::Bank *per = forge_bank(p, OPN2::PercussionTag);    // percussion bank 0
+    pin_instrument(mel, 0, 1, 0); pin_instrument(mel, 5, 2, 12);   // concrete timbres, symbolic meta data
+    pin_instrument(per, 35, 3, 0); pin_instrument(per, 60, 4, -7);
+#endif
     for(int i = 0; i < STEPS; i++)
         step(dev);
     VWITNESS();
